@@ -17,6 +17,7 @@ package main
 import (
 	"fmt"
 	"math/rand"
+	"os"
 	"strconv"
 	"strings"
 	"sync/atomic"
@@ -39,11 +40,16 @@ type node struct {
 	offs []int64
 	kids []*node
 	is   [4]int64 // instance_step: from, to, step, stepDuration
+	runs []hrun   // huge leaves: run-length encoded offsets (huge.go)
+	huge int64    // != 0: this node holds a huge number of tokens (never enumerated, never drained)
 }
 
 func (n *node) String() string {
 	switch n.kind {
 	case "F":
+		if n.runs != nil {
+			return fmt.Sprintf("F%d[%s]{%s}", n.dur, n.runsString(), n.ctor)
+		}
 		var sb strings.Builder
 		for i, o := range n.offs {
 			if i > 0 {
@@ -69,6 +75,9 @@ func (n *node) String() string {
 }
 
 func (n *node) tokens() int {
+	if n.huge != 0 && n.kind != "C" {
+		return 8
+	}
 	switch n.kind {
 	case "F":
 		return len(n.offs)
@@ -260,6 +269,8 @@ func gen(r *rand.Rand, tier string) []string {
 	out = append(out, genStress(r, tier)...)
 	out = append(out, genCbConc(r, tier)...)
 	out = append(out, genNConc(r, tier)...)
+	out = append(out, genHuge(r, tier)...)
+	out = append(out, genLeafConc(r, tier)...)
 	return out
 }
 
@@ -478,6 +489,21 @@ var hangs atomic.Int64
 
 const caseTimeout = 5 * time.Second // a case takes milliseconds (timed ones 0.6 s)
 
+// isWorker: this process is the instrumented worker (scheduling points inside the leaves, instr.go)
+var isWorker bool
+
+// runLocal runs a case of the leaf-level modes in THIS process (the worker).
+func runLocal(input string) string {
+	m := drv.KV(input)
+	switch m["mode"] {
+	case "lconc":
+		return runConc(m)
+	case "lnconc":
+		return runNConc(m)
+	}
+	return "NOINSTR:mode"
+}
+
 func runMode(input string) string {
 	m := drv.KV(input)
 	switch m["mode"] {
@@ -497,6 +523,14 @@ func runMode(input string) string {
 func run(input string) string {
 	if hangs.Load() >= 12 {
 		return "HANG"
+	}
+	if mode := drv.KV(input)["mode"]; mode == "lconc" || mode == "lnconc" {
+		// runs in the instrumented worker process, one case at a time; the time limit starts when its turn has come
+		o := runInWorker(input)
+		if o == "HANG" || o == "CRASH" {
+			hangs.Add(1)
+		}
+		return o
 	}
 	done := make(chan string, 1)
 	go func() {
@@ -518,11 +552,17 @@ func run(input string) string {
 
 func main() {
 	installNHook()
+	if len(os.Args) > 1 && os.Args[1] == "-worker" {
+		isWorker = true
+		workerMain()
+		return
+	}
+	defer removeInstrumentedWorker()
 	drv.Main(&drv.Prop{
 		ID:      "C02",
 		Gen:     gen,
 		Run:     run,
-		Timeout: 8 * time.Second, // see caseTimeout
+		Timeout: 180 * time.Second, // every case has its own limit (caseTimeout); the first leaf-level case also builds the instrumented worker
 		Class: func(in, obs string) string {
 			m := drv.KV(in)
 			c := m["mode"]
@@ -544,10 +584,13 @@ func main() {
 			if strings.Contains(m["ops"], "A") {
 				c += "/timed"
 			}
+			if m["huge"] == "1" {
+				c += "/huge-token-counts"
+			}
 			if m["cb"] == "1" {
 				c += "/callback"
 			}
-			if m["mode"] == "nconc" && strings.Contains(obs, "#W:") {
+			if (m["mode"] == "nconc" || m["mode"] == "lnconc") && strings.Contains(obs, "#W:") {
 				c += "/caller-waits-for-a-lock-of-an-outer-level"
 			}
 			if m["mode"] == "cbconc" {
@@ -563,6 +606,6 @@ func main() {
 			}
 			return c
 		},
-		Rule: "seq: random schedule trees (depth<=3, <=6 children, once/const/line leaves incl. zero-token parts and far-future tokens, unlimited parts finished/live/not-begun by minutes to hours of margin, instance_step nodes, 0- and 1-child composites) x random Start/Next/Left sequences (started, unstarted = started by the first Next, double start, Start after Next), a quarter through the onFinish callback wrapper; timed: an unlimited part finishes between two phases of the case; conc: 2-3 goroutines released one atomic section at a time in PRNG-chosen (quick) or exhaustively enumerated (thorough) orders through the verif yield points, children may be nested composites, started and unstarted; stress: 2-8 free-running goroutines on nested trees, every Next/Left result checked for linearizability against the flat spec; cbconc: 2-4 goroutines on the onFinish wrapper over small trees, released one action at a time (wrapped call returned / callback entered / callback returned), the callback is held open by the harness while other callers reach the wrapper, a caller blocked in the once-primitive is observed through its goroutine status; nconc: 2-3 goroutines on nested composites with the scheduling points of every level active, released one at a time, callers that wait for a lock of an outer level observed through their goroutine status, results judged like a free run. distinct = distinct input line; all are non-trivial",
+		Rule: "seq: random schedule trees (depth<=3, <=6 children, once/const/line leaves incl. zero-token parts and far-future tokens, unlimited parts finished/live/not-begun by minutes to hours of margin, instance_step nodes, 0- and 1-child composites) x random Start/Next/Left sequences (started, unstarted = started by the first Next, double start, Start after Next), a quarter through the onFinish callback wrapper; timed: an unlimited part finishes between two phases of the case; conc: 2-3 goroutines released one atomic section at a time in PRNG-chosen (quick) or exhaustively enumerated (thorough) orders through the verif yield points, children may be nested composites, started and unstarted; stress: 2-8 free-running goroutines on nested trees, every Next/Left result checked for linearizability against the flat spec; cbconc: 2-4 goroutines on the onFinish wrapper over small trees, released one action at a time (wrapped call returned / callback entered / callback returned), the callback is held open by the harness while other callers reach the wrapper, a caller blocked in the once-primitive is observed through its goroutine status; seq huge=1: trees whose parts hold 2^31 … 2^62 tokens (once(1<<32), a million operations per second for an hour, instance_step with steps of 2^31), offsets run-length encoded, only Left and a handful of Next are called; lconc: 2-4 goroutines on ONE leaf (once/const/line/unlimited) in a second build of the driver with scheduling points in front of every access of the leaf's Next/Left to shared state (go build -overlay), released one access at a time, compared step by step with the concurrent leaf model and replayed against the atomic flat spec; lnconc: the same build on composites, points of the composites and of the leaves all active, judged like a free run; nconc: 2-3 goroutines on nested composites with the scheduling points of every level active, released one at a time, callers that wait for a lock of an outer level observed through their goroutine status, results judged like a free run. distinct = distinct input line; all are non-trivial",
 	})
 }
